@@ -15,7 +15,7 @@ import sys
 
 VERIF = os.path.dirname(os.path.dirname(os.path.abspath(__file__)))
 BASE = os.environ.get("HARMLESS_BASE", "/tmp/cleanrepo")
-SCRATCH = "/tmp/hrepo"
+SCRATCH = os.environ.get("HARMLESS_SCRATCH", "/tmp/hrepo")
 PIDS = ["C%02d" % i for i in range(1, 21)]
 WITH_LEAN = {"C09", "C10", "C15", "C17"}
 
@@ -23,7 +23,7 @@ WITH_LEAN = {"C09", "C10", "C15", "C17"}
 def main():
     out_dir = os.path.join(VERIF, "harmless")
     os.makedirs(out_dir, exist_ok=True)
-    res_path = os.path.join(out_dir, "RESULTS.json")
+    res_path = os.path.join(out_dir, "RESULTS%s.json" % os.environ.get("HARMLESS_TAG", ""))
     results = json.load(open(res_path)) if os.path.exists(res_path) else {}
     for d in sys.argv[1:]:
         for diff in sorted(glob.glob(os.path.join(d, "*.diff"))):
